@@ -49,13 +49,31 @@ def World.shortName (w : World) (filename : String) : Option (String × Bool) :=
   let root ← w.appRoot
   pure (parseShortName (isAppFrame incl excl root) filename)
 
-/-- the interval `RepeatedTimer` computes with, in seconds; `none` = the arithmetic of `_time` raises TypeError
-    and the timer thread dies. -/
-def pollInterval (v : CVal) : Option Int :=
+/-- the interval `RepeatedTimer` computes with (`float(interval)`), in seconds; `none` = no usable interval: the
+    arithmetic of `_time` raises TypeError and the timer thread dies (text without the float() coercion), or the
+    value is not a number. -/
+def pollInterval (v : CVal) : Option Dec :=
   match v with
-  | .int i => some i
-  | .str s => if timerCoercesWithFloat then Py.parseInt s else none
+  | .int i => some ⟨i, 0⟩
+  | .bool b => some ⟨if b then 1 else 0, 0⟩
+  | .float r => parseDecimal r
+  | .str s => if timerCoercesWithFloat then parseDecimal s else none
   | _ => none
+
+/-- `str2bool(x)` at its use sites; `none` = AttributeError (`x.lower()` on a value that is not text, when the
+    source does not convert with str() first) or a value whose text the model does not know. -/
+def str2bool (v : CVal) : Option Bool :=
+  match v with
+  | .str s => some (truthyTexts.contains (Py.lower s))
+  | v => if str2boolCoercesWithStr then (pyStr v).map (fun s => truthyTexts.contains (Py.lower s)) else none
+
+/-- `GRPCService.start`: secure channel? -/
+def World.secure (w : World) : Option Bool := str2bool (w.get "SERVICE_SECURE")
+
+/-- `Plugin.is_active()` for a plugin called `name` (upper case): `PLUGIN_<NAME>` absent = active -/
+def World.pluginActive (w : World) (name : String) : Option Bool :=
+  let v := w.get ("PLUGIN_" ++ name)
+  if v.isNone then some true else str2bool v
 
 /-! ### the statement, written independently of the code -/
 
